@@ -1377,8 +1377,12 @@ def c02_seeds(seed, tier):
                 srv = httpd.Server(arch)
                 archive_arg = srv.url()
             verify = rng.random() < 0.3
+            # --force-create next to --seed-output must change nothing (the prior output is still the seed)
+            force_too = in_place and i % 3 == 0
             cls, rc, so, se = clone_cli(W, archive_arg, outp, seeds=seed_paths, seed_output=in_place, stdin_seed=stdin_seed,
-                                        blockdev=blockdev, verify_output=verify, strace_log=None if use_http else log)
+                                        blockdev=blockdev, verify_output=verify, force=force_too, strace_log=None if use_http else log)
+            if force_too:
+                R.stat("in_place_with_force_create_as_well")
             if verify:
                 R.stat("with_verify_output_on_%s" % ("a_block_device" if blockdev else "a_file"))
             got = read_file(outp)
